@@ -31,14 +31,14 @@ PROPERTY = "C06"
 RULE = ("pairwise covering array over {grid (square/non-square, even/odd), energy, potential kind (none, atoms, frozen "
         "phonons with/without ensemble mean, explicit atoms ensemble), aberration set (none, defocus, Cs, astigmatism, "
         "coma, mixed), CTF aperture (equal/smaller than the S-matrix cut-off, soft/hard), defocus series, scan kind "
-        "(grid, line, custom incl. positions outside the cell, single position, default grid), detector set, "
+        "(grid with/without endpoint, line, custom incl. positions outside the cell, single position), detector set, "
         "down-sampling, entry point, chunking} x seeded continuous parameters (cut-off, aberration magnitudes, "
         "positions, atom positions); every case is run lazily AND eagerly; a second covering array over "
         "interpolation factors {2, 3, (1,2), (2,1), (2,3)}; dedicated cases for SMatrixArray.scan. "
         "non-trivial = the reference measurement is not identically zero; distinct = distinct case dicts")
 BOUNDS = {
     "gpts": "<= 32 x 32", "atoms": "<= 4", "slices": "<= 3", "configs": "<= 3", "ctf_members": "<= 3",
-    "scan_positions": "<= ~200 (default Nyquist grid), otherwise <= 6",
+    "scan_positions": "<= 9",
     "interpolation": [[2, 2], [3, 3], [1, 2], [2, 1], [2, 3]],
     "extra_random_cases": {"quick": 6, "thorough": 260},
     "interp_extra_random_cases": {"quick": 2, "thorough": 80},
@@ -90,7 +90,7 @@ POTENTIALS = ["none", "atoms", "fp_mean", "fp_nomean", "ensemble_mean"]
 ABERRATIONS = ["none", "defocus", "Cs", "astigmatism", "coma", "mixed"]
 APERTURES = ["same_soft", "same_hard", "smaller_soft", "smaller_hard"]
 SERIES = [0, 0, 3]
-SCANS = ["grid", "line", "custom", "single", "default_grid", "grid_endpoint"]
+SCANS = ["grid", "line", "custom", "single", "grid_endpoint"]
 DETECTORS = ["waves", "annular", "flex", "segmented", "pixel_cutoff", "pixel_valid", "pixel_full", "waves+annular",
              "annular_bf+pixel_angle+waves"]
 DOWNSAMPLE = [False, False, "cutoff", "valid", "angle"]
@@ -155,8 +155,6 @@ def _scan(kind, r, extent):
         return {"type": "custom", "positions": pos}
     if kind == "single":
         return {"type": "single", "position": [u(0, 1) * lx, u(0, 1) * ly]}
-    if kind == "default_grid":
-        return {"type": "default_grid"}
     raise ValueError(kind)
 
 
@@ -305,8 +303,6 @@ def _scan_obj(case):
         return abtem.CustomScan(s["positions"])
     if s["type"] == "single":
         return tuple(s["position"])
-    if s["type"] == "default_grid":
-        return abtem.GridScan()
     raise ValueError(s["type"])
 
 
@@ -338,7 +334,9 @@ def _detectors(case):
         elif name == "annular_bf":
             d = abtem.AnnularDetector(inner=0.0, outer=0.5 * amax)
         elif name == "flex":
-            d = abtem.FlexibleAnnularDetector(step_size=amax / 6.0)
+            # default outer (= the simulation's own cut-off) on equal grids; explicit on a down-sampled S-matrix
+            d = abtem.FlexibleAnnularDetector(step_size=amax / 6.0,
+                                              outer=None if case["downsample"] is False else amax)
         elif name == "segmented":
             d = abtem.SegmentedDetector(nbins_radial=2, nbins_azimuthal=4, inner=0.2 * amax, outer=0.9 * amax,
                                         rotation=0.3)
@@ -590,16 +588,15 @@ def _run_match(case):
 
     out = []
     names = case["detectors"].split("+")
+    runs = {}
+    for lazy in (True, False):      # code under test first: an exception here is reported against the S-matrix path
+        runs[lazy] = _run_s_matrix(case, lazy)
     ref, ref_meas = _run_oracle(case)
 
     sums = _coefficient_norm(case)
     worst = max(abs(s - 1.0) for s in sums)
     out.append(Res("C06/ctf_coefficients/unit-norm", worst <= 1e-4,
                    f"sum|c_k|^2 = {[round(s, 6) for s in sums]} (expected 1) aberrations={case['aberrations']}", True))
-
-    runs = {}
-    for lazy in (True, False):
-        runs[lazy] = _run_s_matrix(case, lazy)
 
     wave_parts, meas_parts = [], []
     for lazy in (True, False):
@@ -620,7 +617,7 @@ def _run_match(case):
 
     parts = []
     for name, gl, ge in zip(names, runs[True], runs[False]):
-        a, b = np.asarray(gl.array), np.asarray(ge.array)
+        a, b = _squeeze_if_single(case, np.asarray(gl.array)), _squeeze_if_single(case, np.asarray(ge.array))
         nt = bool(np.any(b != 0))
         if type(gl) is not type(ge):
             parts.append((False, f"{name}: lazy {type(gl).__name__} vs eager {type(ge).__name__}", nt))
@@ -697,7 +694,7 @@ def _run_interp(case):
                 big = np.tile(small, tuple(f))
                 if atoms is not None:
                     w = abtem.Waves(big, energy=case["energy"], extent=tuple(extent))
-                    big = np.asarray(_computed(w.multislice(_single_potential(case, atoms), lazy=False)).array)
+                    big = np.asarray(_computed(w.multislice(_single_potential(case, atoms))).array)
                     big = big.reshape(big.shape[-2:])
                 if dgpts != tuple(gpts):
                     big = np.fft.ifft2(_fourier_crop(big, dgpts))
@@ -721,7 +718,7 @@ def _run_interp(case):
     ok, detail, nt = _aggregate(parts)
     out = [Res("C06/interpolation/reduced-probe-equals-cropped-window-probe", ok, detail, nt)]
 
-    a, b = np.asarray(runs[True].array), np.asarray(runs[False].array)
+    a, b = (_squeeze_if_single(case, np.asarray(runs[k].array)) for k in (True, False))
     if a.shape != b.shape:
         out.append(Res("C06/reduce/lazy-equals-eager", False, f"waves: lazy shape {a.shape} vs eager {b.shape}", True))
     else:
